@@ -123,6 +123,10 @@ func (c02) Generate(r *rand.Rand, t string) []*Case {
 			Meta: map[string]interface{}{"badlit": bad}, Tags: tags})
 	}
 	out = append(out, c02SharedStream(r, t)...) // drawn last: the older streams' draws are unchanged
+	// round 6 (c02_history.go), drawn after everything older
+	out = append(out, c02SettingsStream(r, t)...)
+	out = append(out, c02TinyStream(r, t)...)
+	out = append(out, c02RandomTinyStream(r, t)...)
 	return out
 }
 
@@ -135,8 +139,8 @@ func twinRaw(h hist.History) []hist.Obs {
 		if op.Kind == "noformat" {
 			op.Flag = true
 		}
-		if op.Kind == "rcode" || op.Kind == "rplain" || op.Kind == "imports" {
-			continue
+		if op.Kind == "rplain" || op.Kind == "imports" {
+			continue // no effect on the File (an rcode registers imports in it: kept)
 		}
 		h2 = append(h2, op)
 	}
@@ -164,6 +168,19 @@ func (c02) Oracle(c *Case, got []hist.Obs) string {
 				}
 			case "write":
 				if op.Kind == "render" && noformatBefore(h, i) {
+					// a NoFormat render writes the raw rendering: what an identically built File
+					// (same history, NoFormat on throughout) writes at this point.  Nothing an
+					// earlier render of THIS File left behind (it may have been a formatted one)
+					// shows in it.
+					if renderCount(h[:i+1]) > 1 {
+						tw := twinRaw(h[:i+1])
+						if len(tw) == 0 || tw[len(tw)-1].Kind != "write" {
+							return fmt.Sprintf("NoFormat render wrote %q but an identically built File with NoFormat did not render: %v", o.Out, tw)
+						}
+						if tw[len(tw)-1].Out != o.Out {
+							return fmt.Sprintf("NoFormat render (render %d of this File) is not the raw rendering of an identically built File that had NoFormat set all along:\n got  %q\n want %q", renderCount(h[:i+1]), o.Out, tw[len(tw)-1].Out)
+						}
+					}
 					continue
 				}
 				if op.Kind == "render" {
@@ -197,6 +214,17 @@ func (c02) Oracle(c *Case, got []hist.Obs) string {
 		}
 	}
 	return ""
+}
+
+// renderCount: the number of File renders in h.
+func renderCount(h hist.History) int {
+	n := 0
+	for _, op := range h {
+		if op.Kind == "render" {
+			n++
+		}
+	}
+	return n
 }
 
 func noformatBefore(h hist.History, i int) bool {
